@@ -143,6 +143,19 @@ func (env *specEnv) eval(e ast.Expr) Value {
 		a, b := env.eval(e.X), env.eval(e.Y)
 		return env.binary(e.Op, a, b)
 	case *ast.IndexExpr:
+		// an array that lives in memory is indexed by address arithmetic (loading the whole
+		// array value and selecting with an ite chain is quadratic for large arrays)
+		if id, ok := e.X.(*ast.Ident); ok && env.fr != nil {
+			if _, shadow := env.names[id.Name]; !shadow {
+				if a := env.localAlloc(id.Name); a != nil && !x.localCell(a) {
+					if arr, isArr := deref(a.Type()).Underlying().(*types.Array); isArr && arr.Len() > 8 {
+						p := env.fr.vals[a]
+						i := env.toBV64(env.eval(e.Index))
+						return x.loadAt(env.st, arr.Elem(), p.L[0], BVOp("bvadd", p.L[1], mulOff(i, x.stride(arr.Elem()))))
+					}
+				}
+			}
+		}
 		base := env.eval(e.X)
 		idx := env.eval(e.Index)
 		return env.indexValue(base, idx)
@@ -242,6 +255,10 @@ func (env *specEnv) ident(name string) Value {
 		return Value{T: types.Typ[types.Bool], L: []Term{False}}
 	case "nil":
 		return Value{T: types.Typ[types.UntypedNil]}
+	}
+	if name == "rangeint" {
+		// the counter of a range-over-integer loop (completed iterations at the loop head)
+		name = "rangeint.iter"
 	}
 	if a := env.localAlloc(name); a != nil {
 		t := deref(a.Type())
@@ -673,6 +690,29 @@ func (env *specEnv) call(e *ast.CallExpr) Value {
 				}
 				x.C.DeclareFun(name, sorts, srt)
 				return Value{T: typ, L: []Term{app(srt, name, as...)}}
+			case "withzero":
+				// withzero(b, lo, hi): the byte slice b with b[lo:hi] read as zero (lo, hi small
+				// literals); only meaningful as an argument of a recursive spec function
+				b := env.eval(e.Args[0])
+				lo, hi := env.eval(e.Args[1]), env.eval(e.Args[2])
+				if lo.Const == nil || hi.Const == nil || len(b.L) != 4 {
+					unsup("withzero(slice, literal, literal)")
+				}
+				l, _ := constant.Int64Val(lo.Const)
+				h, _ := constant.Int64Val(hi.Const)
+				if h-l > 16 || l < 0 {
+					unsup("withzero: range too large")
+				}
+				obj := Select(x.heap(env.st, SBV8), b.L[0], ObjSort(SBV8))
+				if b.Obj != nil {
+					obj = *b.Obj
+				}
+				for k := l; k < h; k++ {
+					obj = Store(obj, offAdd(b.L[1], k), BVLitI(8, 0))
+				}
+				out := b
+				out.Obj = &obj
+				return out
 			case "sameobj":
 				a, b := env.eval(e.Args[0]), env.eval(e.Args[1])
 				return Value{T: types.Typ[types.Bool], L: []Term{Eq(a.L[0], b.L[0])}}
@@ -786,6 +826,9 @@ func (x *Exec) specCall(env *specEnv, callee *ssa.Function, args []Value) Value 
 	defer func() { x.safety = saved }()
 	if res, ok := x.stdlibModel(nil2(env), env.st, callee, args, token.NoPos, true); ok {
 		return tupleOrSingle(res, callee)
+	}
+	if ct := x.E.contractFor(callee); ct != nil && ct.Rec {
+		return x.recCall(env.st, callee, args)
 	}
 	if len(callee.Blocks) == 0 {
 		unsup("contract calls %s which has no body and no model", callee)
